@@ -143,11 +143,7 @@ static int print_i(void (*printchar_handler)(void *d, int c),
     }
 
     len = (int)(end - str);
-    /* alternative form of o: raise the precision, if and only if necessary,
-     * to force a leading zero */
-    if ((base == 8) && (ops & OPS_FLAG_WITH_SPEC) && min_len <= len &&
-        (len == 0 || *str != '0'))
-        min_len = len + 1;
+
     /* the precision is the minimum number of digits (sign and prefix do not
      * count); the 0 flag pads to the field width and is ignored when a
      * precision is given or the field is left-justified */
@@ -157,6 +153,11 @@ static int print_i(void (*printchar_handler)(void *d, int c),
                      ? width - len - prefix_len
                      : 0;
     zero_count = MAX(zero_count, 0);
+    /* alternative form of o: if and only if necessary, one more zero so that
+     * the first digit of the result is a zero */
+    if ((base == 8) && (ops & OPS_FLAG_WITH_SPEC) && zero_count == 0 &&
+        (len == 0 || *str != '0'))
+        zero_count = 1;
     space_count = width - len - prefix_len - zero_count;
     space_count = MAX(space_count, 0);
 
